@@ -1,6 +1,6 @@
 (** * Entry points the generic OCaml driver dispatches on. Model only, no proofs. *)
 From Coq Require Import List NArith ZArith Bool Floats.
-From HC Require Import Map2.Orbit2 Extract.Tok Extract.Run2 Extract.Query2 Extract.Oracle2 Extract.Sew2Oracle Extract.KernOracle Extract.GeomRun Extract.GridRun Extract.IORun Extract.Run3 Extract.Oracle3 Extract.Sew3Oracle Extract.Query3Oracle Extract.SchedRun Extract.VtkOracle Extract.GrisOracle Extract.SceneOracle2 Extract.SceneOracle3.
+From HC Require Import Map2.Orbit2 Extract.Tok Extract.Run2 Extract.Query2 Extract.Oracle2 Extract.Sew2Oracle Extract.KernOracle Extract.GeomRun Extract.GridRun Extract.IORun Extract.Run3 Extract.Oracle3 Extract.Sew3Oracle Extract.Query3Oracle Extract.SchedRun Extract.VtkOracle Extract.GrisOracle Extract.SceneOracle2 Extract.SceneOracle3 Extract.Grid3Oracle.
 Import ListNotations.
 Open Scope N_scope.
 Definition entry (which : N) (ts : list tok) : list (list tok) :=
@@ -33,6 +33,7 @@ Definition entry (which : N) (ts : list tok) : list (list tok) :=
   | 71 => oracle_vtk_import ts
   | 80 => oracle_grisubal ts
   | 81 => oracle_capture ts
+  | 32 => oracle_grid3 ts
   | 90 => oracle_scene2 ts
   | 91 => oracle_scene3 ts
   | 98 => match obs_state ts with Some st => map (fun d => tN d :: tN (cid st PVertex d) :: vtok (vtx st d)) (all_darts st) | None => [] end
